@@ -269,7 +269,7 @@ func realize(stream []string, class string, variant int, readMax int) ([]byte, e
 				out = append(out, h[:1+variant%2]...)
 			case "eof_mid_body":
 				cut := []int{1, len(pl) / 2, len(pl) - 1, 0}[variant%4]
-				if (variant/4)%2 == 1 {
+				if variant%4 == 2 {
 					c, err := compFrame(pl, 0, len(pl), false)
 					if err != nil {
 						return nil, err
@@ -325,7 +325,7 @@ func realize(stream []string, class string, variant int, readMax int) ([]byte, e
 			return nil, fmt.Errorf("unknown item %q", it)
 		}
 	}
-	if (variant/2)%2 == 0 {
+	if variant%4 < 2 {
 		out = append(out, 0xff) // EOS at the end
 	}
 	return out, nil
